@@ -1,0 +1,23 @@
+//go:build verif
+
+package disk
+
+// VerifC06BlobState exposes the in-memory record the store keeps for key
+// (reserved size, completeness, eviction ban) to the external crash-recovery
+// monitor. Read-only wrapper, no logic.
+func VerifC06BlobState(s *Store, key string) (size uint64, complete, evictionBanned, ok bool) {
+	s.impl.mu.RLock()
+	defer s.impl.mu.RUnlock()
+	b, ok := s.impl.blobs[key]
+	if !ok {
+		return 0, false, false, false
+	}
+	return b.size, b.complete, b.evictionBanned, true
+}
+
+// VerifC06ReservedSize returns the store's accounted size.
+func VerifC06ReservedSize(s *Store) uint64 {
+	s.impl.mu.RLock()
+	defer s.impl.mu.RUnlock()
+	return s.impl.size
+}
